@@ -73,10 +73,17 @@ std::string reassembles(const std::string &s, const std::string &before, const s
 
 // separator functions for one separator form.  F yields the four results through the given overload.
 // Subj is `const ST::string` or `ST::string` (overload resolution on a mutable object must end in the same functions).
+// The model's answer for (subject, what the overload can see of the separator, case mode); computed once, used for every
+// overload that sees the same bytes.
+struct Model {
+    ref::Sides f, l;
+    Model(const std::string &S, const std::string &seen, bool ci)
+        : f(ref::around_first(S, seen, ci)), l(S.size() > 256 ? ref89::around_last(S, seen, ci) : ref::around_last(S, seen, ci)) {}
+};
 template <class SepArg, class Subj>
-std::string check_sep_form(Subj &ss, const std::string &S, const SepArg &arg, const std::string &seen, bool ci, const char *form) {
+std::string check_sep_form(Subj &ss, const std::string &S, const SepArg &arg, const std::string &seen, const Model &mdl, bool ci, const char *form) {
     const ST::case_sensitivity_t cs = ci ? ST::case_insensitive : ST::case_sensitive;
-    const ref::Sides f = ref::around_first(S, seen, ci), l = S.size() > 256 ? ref89::around_last(S, seen, ci) : ref::around_last(S, seen, ci);
+    const ref::Sides &f = mdl.f, &l = mdl.l;
     std::string bf, af, bl, al;
     {
         verif::alloc::LibScope ls;
@@ -142,26 +149,30 @@ std::string check_slices(const SliceCase &k) {
         // resolve to the same results on it
         ST::string ms;
         { verif::alloc::LibScope ls; ms = ST::string(sx.data(), sx.size(), ST::assume_valid); }
+        const std::string own = ref::c_view(S);
         for (int m = 0; m < 2; m++) {
-            std::string why = check_sep_form(ss, S, seps, k.sep, m != 0, "ST::string");
-            if (why.empty()) why = check_sep_form<const char *>(ss, S, sepz.data(), cview, m != 0, "const char*");
-            if (why.empty() && k.sep.size() == 1) why = check_sep_form<char>(ss, S, k.sep[0], k.sep, m != 0, "char");
-            if (why.empty()) why = check_sep_form<const char8_t *>(ss, S, sepz8, cview, m != 0, "const char8_t*");
-            if (why.empty()) why = check_sep_form<const char8_t *>(ms, S, sepz8, cview, m != 0, "const char8_t*, mutable subject");
-            if (why.empty()) why = check_sep_form(ms, S, seps, k.sep, m != 0, "ST::string, mutable subject");
-            if (why.empty()) why = check_sep_form<const char *>(ms, S, sepz.data(), cview, m != 0, "const char*, mutable subject");
-            if (why.empty() && k.sep.size() == 1) why = check_sep_form<char>(ms, S, k.sep[0], k.sep, m != 0, "char, mutable subject");
+            const bool ci = m != 0;
+            const Model full(S, k.sep, ci);
+            const Model cut_(S, cview.size() == k.sep.size() ? std::string() : cview, ci);     // only needed when a NUL cuts the C view short
+            const Model &cut = cview.size() == k.sep.size() ? full : cut_;
+            std::string why = check_sep_form(ss, S, seps, k.sep, full, ci, "ST::string");
+            if (why.empty()) why = check_sep_form<const char *>(ss, S, sepz.data(), cview, cut, ci, "const char*");
+            if (why.empty() && k.sep.size() == 1) why = check_sep_form<char>(ss, S, k.sep[0], k.sep, full, ci, "char");
+            if (why.empty()) why = check_sep_form<const char8_t *>(ss, S, sepz8, cview, cut, ci, "const char8_t*");
+            if (why.empty()) why = check_sep_form<const char8_t *>(ms, S, sepz8, cview, cut, ci, "const char8_t*, mutable subject");
+            if (why.empty()) why = check_sep_form(ms, S, seps, k.sep, full, ci, "ST::string, mutable subject");
+            if (why.empty()) why = check_sep_form<const char *>(ms, S, sepz.data(), cview, cut, ci, "const char*, mutable subject");
+            if (why.empty() && k.sep.size() == 1) why = check_sep_form<char>(ms, S, k.sep[0], k.sep, full, ci, "char, mutable subject");
             // self-referential: the subject is its own separator (it occurs once, at 0, when not empty)
-            if (why.empty()) why = check_sep_form(ss, S, ss, S, m != 0, "ST::string = the subject itself");
-            if (why.empty()) why = check_sep_form<const char *>(ss, S, ss.c_str(), ref::c_view(S), m != 0, "const char* = the subject's own c_str()");
+            if (why.empty()) { const Model self(S, S, ci); why = check_sep_form(ss, S, ss, S, self, ci, "ST::string = the subject itself"); }
+            if (why.empty()) { const Model selfc(S, own, ci); why = check_sep_form<const char *>(ss, S, ss.c_str(), own, selfc, ci, "const char* = the subject's own c_str()"); }
             if (!why.empty()) return why;
         }
         // ... and its own trim set (as a C string: the bytes before its first NUL)
         {
-            const std::string own = ref::c_view(S);
-            SAME(ss.trim_left(ss.c_str()), ref::trim_left(S, own), "trim_left(own c_str())");
-            SAME(ss.trim_right(ss.c_str()), ref::trim_right(S, own), "trim_right(own c_str())");
-            SAME(ss.trim(ss.c_str()), ref::trim(S, own), "trim(own c_str())");
+            SAME(ss.trim_left(ss.c_str()), ref89::trim_left(S, own), "trim_left(own c_str())");
+            SAME(ss.trim_right(ss.c_str()), ref89::trim_right(S, own), "trim_right(own c_str())");
+            SAME(ss.trim(ss.c_str()), ref89::trim(S, own), "trim(own c_str())");
         }
         { verif::alloc::LibScope ls; ss_ = ST::string(); seps = ST::string(); ms = ST::string(); }
     } catch (const verif::budget_exceeded &b) {
@@ -321,16 +332,18 @@ void decode_long(verif::Reader &r, SliceCase &k, Case &c) {
         for (size_t i = 0; i < runr; i++) t += set[m.below((uint32_t)set.size())];
     }
     static const char fence[] = {'\v', '\f', '\0', '\xA0', '\x85', 'x'};
-    std::string body = (tf & 0x30) == 0x30 ? std::string() : lt.s;          // 1 in 4: nothing but the runs (trim removes everything)
-    if (tf & 1) body = std::string(1, fence[(tf >> 1) % sizeof fence]) + body;
-    if (tf & 0x40) body += fence[(tf >> 1) % sizeof fence];
+    std::string body = (tf & 0x30) == 0x30 && !lt.aligned_end && !lt.aligned_start ? std::string() : lt.s;   // 1 in 4: nothing but the runs (trim removes everything)
+    if (lt.aligned_start) l.clear(); else if (tf & 1) body = std::string(1, fence[(tf >> 1) % sizeof fence]) + body;   // block-aligned texts keep their distances
+    if (lt.aligned_end) t.clear(); else if (tf & 0x40) body += fence[(tf >> 1) % sizeof fence];
     k.s = l + body + t;
     k.sep = lt.sep;
     choose_positions(k, ssel, sv, csel, cv, nsel, nv, big1, big2, big3);
 
     const size_t sz = k.s.size();
     c.label("x:long-layout");
-    c.label(sz <= 300 ? "x:size:<=300" : sz <= 1500 ? "x:size:301-1500" : sz <= 4200 ? "x:size:1501-4200" : "x:size:4201+");
+    c.label(sz <= 300 ? "x:size:<=300" : sz <= 1500 ? "x:size:301-1500" : sz <= 4200 ? "x:size:1501-4200" : sz <= 16500 ? "x:size:4201-16500" : "x:size:16501-50000");
+    if (lt.aligned_end) c.label("x:last-occurrence-at-block-edge-from-END");
+    if (lt.aligned_start) c.label("x:first-occurrence-at-block-edge-from-START");
     c.label(gen89::filler_name(lp.filler));
     c.label(gen89::sep_kind_name(lp.kind));
     { const size_t L = k.sep.size(); c.label(L < 8 ? "x:seplen:1-7" : L <= 64 ? "x:seplen:8-64" : L < 255 ? "x:seplen:65-254" : L <= 257 ? "x:seplen:255-257" : "x:seplen:258-300"); }
@@ -522,6 +535,27 @@ long verif_enumerate(int shard, int nshards, int tier, verif::EnumReport &r) {
             if (!run(k)) return r.evaluations;
         }
     }
+    // ---- the last (or only) occurrence of a multi-byte separator around a block edge counted from the END of a ~48 KB text,
+    // and the first one around a block edge counted from the START: a block-wise / backwards search must not drop it
+    {
+        static const size_t BL[] = {16, 64, 256, 4096, 16384, 16386};
+        static const size_t SL[] = {2, 3, 8, 17};
+        int idx = 0;
+        for (size_t B : BL) for (size_t mult = 1; mult <= 2; mult++) for (size_t L : SL) for (size_t j = 0; j <= L + 2; j++) for (int side = 0; side < 2; side++) for (int only = 0; only < 2; only++) {
+            if (side == 1 && B * mult + 1 < j) continue;
+            if (idx++ % nshards != shard) continue;
+            const size_t n = 49157;
+            SliceCase k; k.s.reserve(n);
+            for (size_t i = 0; i < n; i++) k.s += (char)('a' + (i * 11 + i / 53) % 26);
+            gen89::Mix m(0);
+            k.sep = gen89::make_sep(m, gen89::P_DISTINCT, L); k.sep[0] = 'Q';                  // "Q#+*..." : a letter first, so that case folding takes part
+            const size_t at = side == 0 ? n - (B * mult + j - 1) : B * mult + 1 - j;          // END-relative: starts B*mult-1 .. B*mult+L+1 before the end
+            k.s.replace(at, L, k.sep);
+            if (!only) { const size_t other = side == 0 ? 1000 : n - 1000; std::string lower = k.sep; lower[0] = 'q'; k.s.replace(other, L, lower); }   // an earlier / later occurrence (other letter case)
+            k.start = side == 0 ? -(ll)(B * mult) : (ll)(B * mult); k.count = L; k.count_default = false; k.n = B * mult; k.set_default = true; k.set = " \t\r\n";
+            if (!run(k)) return r.evaluations;
+        }
+    }
     // ---- trim runs of every length 0..300, 600, 4096, 70000 on both sides, default and explicit sets, and nothing but the run
     {
         std::vector<size_t> runs; for (size_t R = 0; R <= 300; R++) runs.push_back(R);
@@ -540,6 +574,7 @@ long verif_enumerate(int shard, int nshards, int tier, verif::EnumReport &r) {
     if (shard == 0) {
         r.exhausted.push_back("separators (a ruler of dashes, a run of distinct punctuation) of every length 1..300 in ordinary text: twice inside, as prefix and exact suffix, one byte short, one byte long, after an all-bytes-XOR-0x20 look-alike, equal to the subject; every overload, both case modes");
         r.exhausted.push_back("a 70001-byte subject x start in {+-255..257, +-65535..65537, 70000, -70001} x count in {1, 256, 65536, 65537} x separator at offset 65533 / 65536 / 69998 (end)");
+        r.exhausted.push_back("a 49157-byte text whose last / first (or only) occurrence of a 2, 3, 8, 17-byte separator starts at every offset B*m-1 .. B*m+|sep|+1 from the END / B*m-|sep|-1 .. B*m+1 from the START, B in {16, 64, 256, 4096, 16384, 16386}, m in {1, 2}; every overload, both case modes");
         r.exhausted.push_back("whitespace runs of every length 0..300, 600, 4096, 70000 on both sides of {\"x\\vy\", \"\", \"\\0z\\f\"} x trim set in {default, explicit whitespace, 33-byte set}");
         r.exhausted.push_back("strings \"abc...\" of every length 0..18 x start in -(len+2)..len+2, SSIZE_MIN, SSIZE_MIN+1, SSIZE_MAX-1, SSIZE_MAX x count in 0..len+2, SIZE_MAX-0..len+3, SIZE_MAX-start-2..+2, default");
         r.exhausted.push_back("left(n)/right(n) for every n in 0..2*len+2 and SIZE_MAX-0..2, len 0..18");
